@@ -278,7 +278,7 @@ func ResultAlgebra(p *core.Prog, r *core.Report) {
 		}
 	}
 	r.Count("result_merge_effects", nChecked)
-	r.Floor("result_merge_effects", 25)
+	r.Floor("result_merge_effects", 18)
 
 	// ---- AddErrors / AddWarnings -----------------------------------------------
 	for _, fld := range []string{"Errors", "Warnings"} {
@@ -543,7 +543,7 @@ func ResultAlgebra(p *core.Prog, r *core.Report) {
 		}
 	}
 	r.Count("result_queries", len(queries))
-	r.Floor("result_queries", 8)
+	r.Floor("result_queries", 6)
 	for _, q := range queries {
 		f := p.Func("(*Result)." + q)
 		if f == nil {
@@ -757,7 +757,7 @@ func resAlias(p *core.Prog, r *core.Report, pi *poolInfo) {
 	r.Count("res_alias_loads", nLoads)
 	r.Count("res_alias_stores", nStores)
 	r.Floor("res_alias_loads", 15)
-	r.Floor("res_alias_stores", 6)
+	r.Floor("res_alias_stores", 4)
 	if nLoads > 0 {
 		r.OK(rule, "loads", "-", fmt.Sprintf("%d loads of Result.Errors/Warnings: every use is element-wise, len, append-to-self or a copying callee", nLoads))
 	}
